@@ -5,6 +5,16 @@
 
   `NewEpoch` = distributor `create_new_epoch` (clock) → collector `ForwardFees` (sender = distributor)
   → distributor `reply` (rollover, new epoch).  Everything fails or succeeds together (`Res`).
+
+  STRAY COINS.  Any execute message can carry native coins (`info.funds`).  The bank moves them from the
+  sender to the contract the message is addressed to BEFORE the contract runs; none of the entry points of
+  the fee collector (`CollectFees`, `AggregateFees`, `ForwardFees`, `UpdateConfig`), the fee distributor
+  (`NewEpoch`, `Claim`, `UpdateConfig`), the router (`AddSwapRoutes`, `RemoveSwapRoutes`) or the lair's
+  `Unbond` looks at `info.funds`, so the coins simply stay on the receiving contract: a gift, then the
+  operation, atomically (a failing operation reverts the gift).  The lair's `Bond` is the exception: it
+  refuses anything but exactly the one coin being bonded (`validate_funds`).  `Op.coins payer asset amount op`
+  = `op` sent with `amount` of `asset` attached by `payer` (nested `coins` = several coins); `asset` may
+  be any index, also one that is no asset of the world (an unrelated denom: index `nassets`).
 -/
 import WW.Model.Distributor
 import WW.Model.Collector
@@ -28,6 +38,9 @@ structure St where
   /-- the router's swap routes: `rts ask offer` = hops of the route `offer → ask`; `[]` = none.  The
       collector asks for routes towards the CURRENT distribution asset (`cview`) -/
   rts : Nat → Nat → List (Nat × Nat)
+  /-- balances of the other contracts the engine sends messages to, per asset: `xb 0` = the router,
+      `xb 1` = the whale lair.  Only stray coins ever land there. -/
+  xb : Nat → Nat → Nat
 
 inductive Op where
   | newEpoch (now : Nat) (router : Nat → Nat → Nat → Nat) (acc : Nat → Nat → Nat)
@@ -51,6 +64,42 @@ inductive Op where
   | collect (sender : Nat) (f : Collector.FeesFor)
   /-- `AggregateFees` sent to the collector directly; router outputs / accrued fees as recorded -/
   | aggregate (sender : Nat) (f : Collector.FeesFor) (router : Nat → Nat → Nat → Nat) (acc : Nat → Nat → Nat)
+  /-- the message of `op` sent with `amount` of `asset` attached (`info.funds`), paid by `payer` -/
+  | coins (payer asset amount : Nat) (op : Op)
+
+/-- the contract an operation's message is addressed to -/
+inductive Target where
+  | collector
+  | distributor
+  | router
+  | lair
+  /-- not an execute message of the pipeline's contracts that the engine attaches stray coins to (trades and
+      loans carry their own funds, `gift` is a bank send, pair administration goes to the pool factory) -/
+  | nobody
+deriving Repr, DecidableEq
+
+def target : Op → Target
+  | .newEpoch .. => .distributor
+  | .claim .. => .distributor
+  | .grace .. => .distributor
+  | .setDist .. => .distributor
+  | .colcfg .. => .collector
+  | .fwd .. => .collector
+  | .collect .. => .collector
+  | .aggregate .. => .collector
+  | .bond .. => .lair
+  | .addRoute .. => .router
+  | .rmRoute .. => .router
+  | .swap .. => .nobody
+  | .loan .. => .nobody
+  | .gift .. => .nobody
+  | .unreg .. => .nobody
+  | .toggle .. => .nobody
+  | .coins _ _ _ op => target op
+
+def isCoins : Op → Bool
+  | .coins .. => true
+  | _ => false
 
 /-- the collector's configuration / state as it sees them now: `query_distribution_asset` asks the
     distributor for its CURRENT `distribution_asset` on every aggregation and in the reply, and the router
@@ -70,6 +119,34 @@ def credit (ub : Nat → Nat → Nat) (u : Nat) : Distributor.Ledger → Nat →
 def updOpt (f : Nat → Option Nat) (i : Nat) (v : Option Nat) : Nat → Option Nat := fun j => if j = i then v else f j
 def updHops (f : Nat → List (Nat × Nat)) (i : Nat) (v : List (Nat × Nat)) : Nat → List (Nat × Nat) :=
   fun j => if j = i then v else f j
+
+def addXb (f : Nat → Nat → Nat) (c a x : Nat) : Nat → Nat → Nat :=
+  fun c' a' => if c' = c ∧ a' = a then f c' a' + x else f c' a'
+
+def debit (ub : Nat → Nat → Nat) (u a x : Nat) : Nat → Nat → Nat :=
+  fun v b => if v = u ∧ b = a then ub v b - x else ub v b
+
+/-- the payer's balances after attaching `amount` of `asset`: the balances of the bonders (addresses
+    `< nusers`) in the assets of the world are part of the state; every other sender (owner, trader, stranger)
+    and the unrelated denom are funded beyond anything a history attaches -/
+def ubAfterPay (cfg : Cfg) (s : St) (payer asset amount : Nat) : Nat → Nat → Nat :=
+  if payer < cfg.nusers ∧ asset < cfg.c.nassets then debit s.ub payer asset amount else s.ub
+
+/-- the bank's part of a message with coins attached: `amount` of `asset` moves from `payer` to the
+    contract the message is addressed to, before the contract runs.  Fails when a bonder attaches more
+    than it holds. -/
+def pay (cfg : Cfg) (s : St) (payer asset amount : Nat) : Target → Res St
+  | .nobody => .err
+  | t =>
+    if payer < cfg.nusers ∧ asset < cfg.c.nassets ∧ s.ub payer asset < amount then .err
+    else
+      let s1 := { s with ub := ubAfterPay cfg s payer asset amount }
+      match t with
+      | .collector => .ok { s1 with c := { s.c with bal := Collector.add s.c.bal asset amount } }
+      | .distributor => .ok { s1 with d := Distributor.gift s.d asset amount }
+      | .router => .ok { s1 with xb := addXb s.xb 0 asset amount }
+      | .lair => .ok { s1 with xb := addXb s.xb 1 asset amount }
+      | .nobody => .err
 
 /-- recorded outcome code → `Res` (0 ok, 1 err, 2 panic) -/
 def ofCode (r : Nat) (s : St) : Res St := if r = 0 then .ok s else if r = 1 then .err else .panic
@@ -168,6 +245,12 @@ def step (cfg : Cfg) (s : St) : Op → Res St
   | .aggregate sender f router acc =>
     match Collector.aggregateFees (ccfg cfg s) (cview s) sender f router acc with
     | .ok (c', _, _) => .ok { s with c := c' }
+    | .err => .err
+    | .panic => .panic
+  | .coins payer asset amount op =>
+    -- the gift to the receiving contract, then the operation: one transaction
+    match pay cfg s payer asset amount (target op) with
+    | .ok s1 => step cfg s1 op
     | .err => .err
     | .panic => .panic
 
